@@ -38,3 +38,30 @@ def compute(pool, oplist, count=True):
 
     pool.run_jobs([(None, {'cmd': 'ref', 'ops': [op], 'count': count, 'wall_limit_s': 120}) for op in oplist], on_result=on)
     return ref, twice
+
+
+class LazyRef(dict):
+    """Reference table filled on demand: `ensure(ops)` computes the missing entries (each op still in its own
+    forked child of a hash-seed-0 zygote).  The quick tier only pays for the ops its runs really use."""
+
+    def __init__(self, pool):
+        super().__init__()
+        self.pool = pool
+        self.twice = []
+        self.seconds = 0.0
+
+    def ensure(self, ops):
+        import time
+        missing = {}
+        for op in ops:
+            k = O.op_key(op)
+            if k not in self and k not in missing:
+                missing[k] = op
+        if not missing:
+            return []
+        t = time.time()
+        r, tw = compute(self.pool, list(missing.values()))
+        self.update(r)
+        self.twice.extend(tw)
+        self.seconds += time.time() - t
+        return tw
